@@ -55,6 +55,7 @@ def run(ctx):
         try:
             C.sweep(ctx, model, table, lambda k: True, nvec, profile, stats, judge_answers=False)
             C.reply_sweep(ctx, model, 1 if quick else 6, profile, stats)
+            C.traffic_sweep(ctx, model, 1 if quick else 4, profile, stats)
             C.retry_sweep(ctx, model, 2 if quick else 20, profile, stats)
             C.history_sweep(ctx, model, lambda k: True, 25 if quick else 400, stats, judge_answers=False)
         except Exception as e:
@@ -88,6 +89,7 @@ def run(ctx):
     ctx.coverage["kinds"] = len(K.KINDS)
     ctx.coverage["theorem_table_kinds"] = len(table[0]) if table else 0
     ctx.coverage["request_reply_cases"] = stats["reply_cases"]
+    ctx.coverage["request_traffic_reply_cases"] = stats.get("traffic_cases", 0)
     ctx.coverage["cases_per_kind"] = min(stats["per_kind"].values()) if stats["per_kind"] else 0
     ctx.coverage["input_distribution"] = {"module_selections": 16, "with_and_without_encryption_layers": 2,
                                           "field_vectors_per_cell": nvec, "kinds_recv": len([k for k in K.KINDS if k["dir"] == "recv"]),
